@@ -244,3 +244,59 @@ def table_tok_cases(rnd, tier):
             rec["linear"] = worst
         recs.append(rec)
     return recs
+
+
+def multi_component_cases(rnd, tier):
+    """C11 on SYSTEMS: the reconstructions receive lists of several components (the Euler primitive variables, the shallow-water
+    pair); face states are read at the numflux seam of the real operator (Recording wrapper); every component is judged on its
+    own: constant -> bitwise the cell value at every face, linear -> the profile at the interior faces (round-off)"""
+    recs = []
+    ncase = 60 if tier == "quick" else 600
+    for c in range(ncase):
+        n = rnd.choice([3, 4, 7, 12])
+        m = random_mesh(rnd, n)
+        n = m.ncell
+        recon = rnd.choice(fd.ALL_RECONS)
+        system = ["euler", "sw"][c % 2]
+        xc = np.asarray(m.centers(), dtype=float)
+        xf = np.asarray(m.xf, dtype=float)
+        span = float(xf[-1] - xf[0])
+        ncomp = 3 if system == "euler" else 2
+        mode = 1 + (c // 2) % 2           # 1 constant, 2 linear
+        al = [rnd.uniform(1.0, 3.0) for _ in range(ncomp)]
+        be = [0.0] * ncomp if mode == 1 else [rnd.uniform(-0.3, 0.3) / max(span, 1e-300) for _ in range(ncomp)]
+        if system == "sw":
+            model = O.Recording(fd.sw.shallowwater1d(g=1.0))
+            flux, bc = "rusanov", "sym"
+        else:
+            model = O.Recording(fd.euler.euler1d(gamma=1.4))
+            flux, bc = "hlle", "sym"
+        prim = [al[q] + be[q] * (xc - xf[0]) for q in range(ncomp)]
+        if system == "euler":
+            prim[1] = prim[1] - 2.0        # a velocity of either sign
+        try:
+            disc = fd._real_modeldisc.fvm(model, m, fd.recon(recon), numflux=flux, bcL={"type": bc}, bcR={"type": bc})
+            f = fd.field.fdata(model, m, model.prim2cons([np.array(p_, dtype=float) for p_ in prim]))
+            disc.rhs(f)
+            pL, pR, _ = model.calls[-1]
+            back = model.cons2prim(f.data)
+        except Exception as ex:
+            recs.append(O.raised_record(ex, recon=recon, n=n, bcl=bc, bcr=bc))
+            continue
+        const_bad, worst = 0, 0
+        for q in range(ncomp):
+            cell = np.asarray(back[q], dtype=float)          # what the reconstruction was given (after the round trip)
+            if mode == 1:
+                # interior faces: both states are cell values of the neighbours, bitwise
+                const_bad += int(np.sum(pL[q][1:] != cell)) + int(np.sum(pR[q][:-1] != cell))
+            elif recon != "extrapol1" and n >= 3:
+                sc = float(np.max(np.abs(cell))) + abs(be[q]) * span
+                a0 = (al[q] - (2.0 if (system == "euler" and q == 1) else 0.0))
+                for k in range(1, n - 1):
+                    worst = max(worst, core.ulps(pL[q][k + 1], a0 + be[q] * (xf[k + 1] - xf[0]), sc),
+                                core.ulps(pR[q][k], a0 + be[q] * (xf[k] - xf[0]), sc))
+        rec = dict(kind="tok", n=n, recon=recon, bcl=bc, bcr=bc, mode=mode, model=system, flux=flux, cons=0, perflux=0,
+                   wall=0, unif=0, const=const_bad, linear=min(worst * 1, core.ULP_CAP), shift=0, mirror=0, solve=0, implicit=0, scaling=0,
+                   unifsolve=0, scalero=0, components=ncomp)
+        recs.append(rec)
+    return recs
